@@ -1139,16 +1139,22 @@ func (app *App) ErrorHandler(ctx Ctx, err error) error {
 		mountedPrefixParts int
 	)
 
+	path := ctx.Path()
 	for prefix, subApp := range app.mountFields.appList {
-		if prefix != "" && strings.HasPrefix(ctx.Path(), prefix) {
-			parts := len(strings.Split(prefix, "/"))
-			if mountedPrefixParts <= parts {
-				if subApp.configured.ErrorHandler != nil {
-					mountedErrHandler = subApp.config.ErrorHandler
-				}
-
-				mountedPrefixParts = parts
-			}
+		// only sub-apps that configured an error handler take part
+		if prefix == "" || subApp.configured.ErrorHandler == nil {
+			continue
+		}
+		// the mount prefix has to end on a segment boundary of the path
+		prefix = utils.TrimRight(prefix, '/')
+		if !strings.HasPrefix(path, prefix) || (len(path) > len(prefix) && path[len(prefix)] != '/') {
+			continue
+		}
+		// all candidates are prefixes of the same path, the longest one is the
+		// innermost sub-app; the choice does not depend on the map order
+		if parts := len(prefix) + 1; parts > mountedPrefixParts {
+			mountedErrHandler = subApp.config.ErrorHandler
+			mountedPrefixParts = parts
 		}
 	}
 
